@@ -171,6 +171,8 @@ def execute(c, tag=''):
 
     def run():
         fr = make_frame(c.T, c.Fc, c.asc, df, dt, fch1)
+        # the frame's own time axis need not start at 0 (cadences shift it; users may too): arbitrary origin
+        fr.ts = fr.ts + Sym(z3.Real(f't_origin{tag}'))
         before = dict(fs=list(fr.fs), ts=list(fr.ts), shape=fr.shape, noise=(fr.noise_mean, fr.noise_std),
                       meta=dict(fr.metadata), rng=fr.rng, rng_state=str(fr.rng.bit_generator.state),
                       fmin=fr.fmin, fmax=fr.fmax, df=fr.df, dt=fr.dt)
@@ -187,7 +189,7 @@ def model_payload(c, ex, m, extra=None):
     """concrete inputs from a model, JSON-able"""
     mf = lambda t: core.model_float(m, t)
     inp = ex['inp']
-    p = dict(fn='add_signal', cfg=c.as_dict(), df=mf(ex['df']), dt=mf(ex['dt']), fch1=mf(ex['fch1']),
+    p = dict(fn='add_signal', cfg=c.as_dict(), df=mf(ex['df']), dt=mf(ex['dt']), fch1=mf(ex['fch1']), t_origin=mf(z3.Real('t_origin')),
              D=[[mf(ex['D'][i, j]) for j in range(c.Fc)] for i in range(c.T)])
     for k in ('path_arr', 'tp_arr', 'bp_arr'):
         if k in inp:
@@ -290,6 +292,7 @@ def replay_add_signal(p):
     fr = stg.Frame(fchans=c['Fc'], tchans=c['T'], df=p['df'], dt=p['dt'], fch1=p['fch1'], ascending=c['asc'], seed=1)
     D = np.array(p['D'], dtype=float)
     fr.data = D.copy()
+    fr.ts = fr.ts + p.get('t_origin', 0.0)
     fs0, ts0 = fr.fs.copy(), fr.ts.copy()
     state0 = str(fr.rng.bit_generator.state)
     nm0 = (fr.noise_mean, fr.noise_std)
